@@ -267,29 +267,60 @@ def replay_one(menu, rec, final=True, pair_only=False):
     return stats
 
 
-def _guarded(menu, rec, final):
-    """one history in a forked child (watchdog pattern of c09): a crash of the interpreter is an observation about
-    THIS history, a run that does not end has unbounded dynamics and is skipped (counted), not judged"""
-    from .c09 import _forked
+def _one(menu, rec, final):
+    try:
+        return replay_one(menu, rec, final=final)
+    except BaseException as e:  # noqa
+        import traceback
+        return {"harness_exception": repr(e), "tb": traceback.format_exc()[-2500:]}
 
-    def fn():
-        try:
-            return replay_one(menu, rec, final=final)
-        except BaseException as e:  # noqa
-            import traceback
-            return {"harness_exception": repr(e), "tb": traceback.format_exc()[-2500:]}
-    res = _forked(fn, 60.0)
-    if res.get("skipped_unbounded"):
-        return {"ok": True, "skipped": 1}
-    if res.get("what") == "crash":
-        return {"ok": False, "key": "crash:%s" % rec["fam"], "what": "the interpreter died while this history was replayed", "step": len(rec["steps"])}
-    if res.get("what") == "exception" and "key" not in res:
-        return {"harness_exception": res.get("detail", "?"), "tb": ""}
-    return res
+
+_WARM = False
+
+
+def _warm():
+    """load the libraries and fill sympy's caches ONCE in the worker itself, so that the forked children start warm"""
+    global _WARM
+    if _WARM:
+        return
+    _WARM = True
+    import numpy as np
+    import bioscrape.lineage as bl
+    from bioscrape.types import Model
+    from bioscrape.simulator import py_simulate_model
+    m = Model(species=["S1", "S2"], reactions=[([], ["S2"], "general", {"rate": "k1*S1 + exp(-t) + log(S1 + 1) + abs(S2) + Heaviside(S1 - 1/2)*min(S1, S2) + max(S2, k1)^2/volume"})],
+              parameters=[("k1", 1.0)], rules=[("assignment", {"equation": "S2 = 2*S1 + 1"})], initial_condition_dict={"S1": 2, "S2": 0})
+    tp = np.linspace(0.0, 1.0, 3)
+    py_simulate_model(tp, Model=m, stochastic=True, return_dataframe=False)
+    py_simulate_model(tp, Model=m, stochastic=False, return_dataframe=False)
+    lm = bl.LineageModel(species=["S1"], reactions=[([], ["S1"], "massaction", {"k": 1.0})], initial_condition_dict={"S1": 0})
+    bl.py_SimulateSingleCell(tp, Model=lm, return_dataframes=False)
+
+
+def _guarded(menu, recs, final):
+    """the histories of a job in a forked child (watchdog pattern of c09); if the child dies or does not finish, each
+    history is repeated in a child of its own: a crash of the interpreter is then an observation about ONE history,
+    a run that does not end has unbounded dynamics and is skipped (counted), not judged"""
+    from .c09 import _forked
+    _warm()
+    res = _forked(lambda: {"ok": True, "out": [_one(menu, rec, final) for rec in recs]}, 20.0 + 4.0 * len(recs))
+    if res.get("out") is not None:
+        return res["out"]
+    out = []
+    for rec in recs:
+        r = _forked(lambda: _one(menu, rec, final), 45.0)
+        if r.get("skipped_unbounded"):
+            r = {"ok": True, "skipped": 1}
+        elif r.get("what") == "crash":
+            r = {"ok": False, "key": "crash:%s" % rec["fam"], "what": "the interpreter died while this history was replayed", "step": len(rec["steps"])}
+        elif r.get("what") == "exception" and "key" not in r:
+            r = {"harness_exception": r.get("detail", "?"), "tb": ""}
+        out.append(r)
+    return out
 
 
 def impl_replay(job):
-    return {"out": [_guarded(job["menu"], rec, job.get("final", True)) for rec in job["recs"]]}
+    return {"out": _guarded(job["menu"], job["recs"], job.get("final", True))}
 
 
 # ------------------------------------------------------------------ driver
@@ -373,7 +404,7 @@ def run(tier):
         if expect is None:
             states += r.distinct
             trans += r.generated
-    recs, gen = [], []
+    recs, gen, jobs = [], [], []
     for k, (name, cs, nsim, depth) in enumerate(gen_runs(tier, seed)):
         cfg = common.make_cfg(name, spec="GSpecSim" if nsim else "GSpecExh", constants=cs, invariants=INVS + ["Emit"])
         if nsim:
@@ -383,7 +414,10 @@ def run(tier):
         rs = [x for x in r.records if "steps" in x]
         recs += rs
         gen.append({"config": name, "kind": "simulate" if nsim else "exhaustive", "histories": len(rs), "states": r.generated})
-    jobs = [{"menu": menu, "recs": ch} for ch in pool.chunks(recs, 12)]
+        # the closing comparison (every mode twice, re-initialised, against the fresh model twice) runs on every random
+        # history and, in the quick tier, on every third chunk of the exhaustive short ones
+        chs = pool.chunks(rs, 12)
+        jobs += [{"menu": menu, "recs": ch, "final": bool(nsim) or tier != "quick" or j % 3 == 0} for j, ch in enumerate(chs)]
     results = pool.run_jobs("c08", "impl_replay", jobs, nworkers=NW)
     counters = {}
     judge(v, jobs, results, counters)
